@@ -13,8 +13,8 @@ RULE = ("random host programs over if_eq/ne/lt/ge/ez/nz (context and callback fo
         "loop_until with an at-most exit condition, add with and without modulus on Future/RegFuture with "
         "int/Future/register operands, arrays with initial values (incl. all-equal), new_register, measurement into "
         "futures / registers / loop-indexed entries, gates; nesting <= 4; random flush placement, and for small "
-        "programs EVERY subset of top-level flush points; 1-3 measurement scripts per program (all scripts up to "
-        "length 4 for small programs in the thorough tier). Each is run through SDK -> assemble -> bytes -> "
+        "programs EVERY subset of top-level flush points; 1-2 random measurement scripts per program, and for programs "
+        "with at most 16 (quick) / 64 (thorough) outcome sequences EVERY outcome sequence. Each is run through SDK -> assemble -> bytes -> "
         "controller -> executor and compared with direct evaluation after every flush: applied operations, arrays, "
         "registers, and every host handle created so far. Non-trivial = direct evaluation executed at least one "
         "conditional body or loop iteration and >= 2 subroutines or >= 12 operations; distinct = distinct (program, script).")
@@ -48,6 +48,16 @@ def cases(ctx):
         prog = g.program(rng.randrange(2, 9), p_flush=rng.choice([0.0, 0.2, 0.4, 0.7]))
         for sc in _scripts(rng, rng.choice([1, 1, 2])):
             yield {"kind": "prog", "prog": prog, "script": sc}
+    # every measurement script (all outcome sequences) for programs with few random measurements
+    for _ in range(ctx.n(40, 4000)):
+        g = HostGen(rng, max_depth=rng.choice([2, 3]))
+        prog = g.program(rng.randrange(2, 6), p_flush=rng.choice([0.0, 0.3]))
+        scripts = all_scripts(prog, cap=16 if ctx.quick else 64)
+        if scripts is None or len(scripts) < 2:
+            continue
+        ctx.count("programs_with_all_scripts")
+        for sc in scripts:
+            yield {"kind": "prog", "prog": prog, "script": sc, "all_scripts": len(scripts)}
     # every subset of top-level flush points for small programs
     for _ in range(ctx.n(25, 1500)):
         g = HostGen(rng, max_depth=3, allow_regs=False)
@@ -64,6 +74,29 @@ def cases(ctx):
                 if i < n - 1 and (mask >> i) & 1:
                     prog.append({"op": "flush"})
             yield {"kind": "prog", "prog": prog, "script": sc, "flushmask": mask}
+
+
+def all_scripts(prog, cap=64):
+    """All outcome sequences of the non-forced measurements of `prog` (the reference tells which measurements are random);
+    None if there are more than `cap`."""
+    out, stack = [], [[]]
+    while stack:
+        s = stack.pop()
+        ref = hl.DirectEval(s, step_bound=4000)
+        try:
+            for seg in hl.segments(prog):
+                ref.run_segment(seg)
+        except (hl.HostFault, hl.StepBound):
+            return None
+        used = len(ref.script.free_choices())
+        if used > len(s):
+            stack.append(s + [0])
+            stack.append(s + [1])
+        else:
+            out.append(s)
+        if len(out) + len(stack) > cap:
+            return None
+    return out
 
 
 def run_case(ctx, case):
